@@ -11,7 +11,8 @@ from common import hx, unhx
 class Snap:
     """a materialised tree + its snapshot, sent to the model once"""
 
-    def __init__(self, scratch, entries=None, root=None, tz="UTC", content_facts=True, subdir="t"):
+    def __init__(self, scratch, entries=None, root=None, tz="UTC", content_facts=True, subdir="t", as_nobody=False,
+                 after_materialise=None):
         self.scratch = scratch
         self.root = root or os.path.join(scratch, subdir)
         if not os.path.exists(self.root):
@@ -19,7 +20,22 @@ class Snap:
         if entries is not None:
             fstree.materialise(self.root, entries)
         self.tz = tz
-        self.top, self.nodes = fstree.snapshot(self.root, content_facts=content_facts)
+        self.as_nobody = as_nobody
+        if after_materialise:
+            after_materialise(self.root)
+        if as_nobody:
+            # the facts (what can be listed / read) are those of the unprivileged user the search runs as
+            import subprocess
+            import snap_as
+            p = subprocess.run(["setpriv", "--reuid=65534", "--regid=65534", "--clear-groups", "/usr/bin/python3",
+                                os.path.join(common.TOOLS, "snap_as.py"), self.root],
+                               stdout=subprocess.PIPE, stderr=subprocess.PIPE, timeout=120)
+            if p.returncode != 0:
+                raise RuntimeError("snapshot as nobody failed: " + p.stderr.decode("utf-8", "replace")[-500:])
+            obj = snap_as.dec(json.loads(p.stdout))
+            self.top, self.nodes = obj["top"], obj["nodes"]
+        else:
+            self.top, self.nodes = fstree.snapshot(self.root, content_facts=content_facts)
         self.sent_to = None
 
     def send(self, model, cwd=None, cfg=None):
@@ -171,7 +187,8 @@ def run_case(ctx, snap, argv, fmt="tabs", cwd=None, relation="runMain (model) = 
              timeout=10, config=None, extra=None, ncols=None):
     """one CLI correspondence case; returns (model_res, impl_res)"""
     cwd = cwd or snap.root
-    impl = common.run_cli(argv, cwd=cwd, scratch=snap.scratch, tz=snap.tz, timeout=timeout, config=config)
+    impl = common.run_cli(argv, cwd=cwd, scratch=snap.scratch, tz=snap.tz, timeout=timeout, config=config,
+                          as_nobody=getattr(snap, "as_nobody", False))
     mres = None
     if ctx.model_ok:
         if snap.sent_to != (ctx.model, cwd):
